@@ -15,7 +15,7 @@ import orchestrate
 import tlc
 from tagfam import _run_jobs
 
-FAMILY_FILES = ["harness/relfam.py", "harness/relrun.py", "harness/variants.py", "harness/vlex.py", "harness/tagfam.py", "spec/Relayout.tla", "spec/RelayoutTrace.tla", "spec/RelayoutTrace.cfg",
+FAMILY_FILES = ["harness/gendesign.py", "harness/relfam.py", "harness/relrun.py", "harness/variants.py", "harness/vlex.py", "harness/tagfam.py", "spec/Relayout.tla", "spec/RelayoutTrace.tla", "spec/RelayoutTrace.cfg",
                 "spec/MC_Relayout.cfg", "spec/Mutant_Relayout_Layout.cfg"]
 QUICK = ["eol1", "eolt1", "own1", "widen", "narrow", "break3a", "break3b", "break3c", "breakcmt3a", "breakcmt3b", "breakcmt3c", "join2a", "upper", "flip"]
 
@@ -55,8 +55,11 @@ def _collect(tier):
     recipes = QUICK if q else sorted(variants.RECIPES)
     nsh = 16
     jobs = []
+    import gendesign
+
+    gen = [{"text": t, "name": n, "recipes": recipes} for n, t in gendesign.designs(60 if q else 300)]
     for k in range(nsh):
-        items = [{"path": p, "name": corpus.rel(p), "recipes": recipes} for p in base[k::nsh]]
+        items = [{"path": p, "name": corpus.rel(p), "recipes": recipes} for p in base[k::nsh]] + gen[k::nsh]
         jobs.append({"out": os.path.join(wd, "rel%02d.json" % k), "items": items, "first_id": (k + 1) * 1000000})
     outs = _run_jobs(jobs, wd, "relrun.py")
     t1 = time.time()
